@@ -9,8 +9,9 @@
 From Coq Require Import Reals ZArith List.
 From PV Require Import Num NumR Model_voigt Model_decomp Proofs_tensors_alg Proofs_tensors_rot
   Proofs_tensors_maps Proofs_tensors_proj Inst_tensors Proofs_decomp Proofs_decomp2 Proofs_decomp3
-  Model_decomp_series Proofs_decomp_series.
-From PV.gen Require Import Gen_tensors.
+  Proofs_decomp4 Proofs_decomp5 Model_decomp_series Proofs_decomp_series
+  Inst_decomp_base Inst_decomp_seg0 Inst_decomp_seg1 Inst_decomp_seg2 Inst_decomp Proofs_decomp_gen.
+From PV.gen Require Import Gen_tensors Gen_decomp.
 Import ListNotations.
 Open Scope R_scope.
 
@@ -269,6 +270,68 @@ Example C12_corotation_nonvacuous :
 Proof. exact C12_run_nonvacuous_proof. Qed.
 
 (* ---------------------------------------------------------------------- *)
+(* GENERAL tensors (no symmetry assumed): the frame clause at full strength *)
+(* ---------------------------------------------------------------------- *)
+(* M0 and M are the same tensor in two frames related by Rq (R^T R = I); both contractions have simple spectra
+   (distinct3 mud, distinct3 muv: the property's own restriction); the eigh oracle returns, in both frames,
+   orthonormal columns with column j an eigenvector for the j-th eigenvalue (eigh lists the eigenvalues in
+   ascending order and they are the same in both frames).  Then, whenever the run in the original frame reports
+   numbers at all, the run in the new frame reports the SAME bulk modulus, shear modulus, percent anisotropy and
+   five class percentages, and its hexagonal axis is +- Rq . (the axis of the original run).  No tie exclusion is
+   needed: both runs compare the same real numbers in the same order (Proofs_decomp4.v / Proofs_decomp5.v: the
+   eigenvectors co-rotate up to sign, the pairing is equivariant, the candidate frames differ by reversals of axes,
+   which the four projectors commute with). *)
+Theorem C12_general_outputs_frame_independent :
+  forall (M0 Ed0 Ev0 M Ed Ev Rq : arr NumR) (mud muv : nat -> R),
+  let vm0 := k_upper_tri_to_symmetric_6 M0 in
+  let vm := k_upper_tri_to_symmetric_6 M in
+  sym6 vm0 -> sym6 vm -> orth (mat3 Rq) ->
+  eq4b (t4 (k_voigt_to_elastic_tensor vm)) (rot4 (t4 (k_voigt_to_elastic_tensor vm0)) (mat3 Rq)) ->
+  distinct3 mud -> distinct3 muv ->
+  orth (mat3 Ed0) -> eigcols (mat3 (fst (k_voigt_decompose vm0))) (mat3 Ed0) mud ->
+  orth (mat3 Ev0) -> eigcols (mat3 (snd (k_voigt_decompose vm0))) (mat3 Ev0) muv ->
+  orth (mat3 Ed) -> eigcols (mat3 (fst (k_voigt_decompose vm))) (mat3 Ed) mud ->
+  orth (mat3 Ev) -> eigcols (mat3 (snd (k_voigt_decompose vm))) (mat3 Ev) muv ->
+  forall out0 : list R,
+  @elasticity_components1 NumR M0 Ed0 Ev0 = Ok out0 ->
+  exists out, @elasticity_components1 NumR M Ed Ev = Ok out /\
+    (forall n, (n < 8)%nat -> nth n out 0 = nth n out0 0) /\
+    exists sgn, pm1 sgn /\
+      forall a, (a < 3)%nat -> nth (8 + a) out 0 = sgn * sum3 (fun b => mat3 Rq a b * nth (8 + b) out0 0).
+Proof. exact ec1_general_frame_independent. Qed.
+
+(* the two ingredients as statements of their own *)
+(* (A) + (B): under the same oracle hypotheses column i of the SCCS built in the new frame is +- Rq . (column i of
+   the SCCS built in the original frame) -- the nearest-eigenvector pairing (degrees, bound 10, sign(dot) * j,
+   averaging, normalisation) is equivariant *)
+Theorem C12_pairing_equivariant :
+  forall (Q : M3) (Ed0 Ev0 Ed Ev : arr NumR) (s t : nat -> R),
+  orth Q -> orth (mat3 Ed0) -> orth (mat3 Ev0) -> corot Q Ed0 Ed s -> corot Q Ev0 Ev t ->
+  forall i, (i < 3)%nat -> forall r, (r < 3)%nat ->
+    @sccs_col NumR Ed Ev i r = s i * rotv Q (@sccs_col NumR Ed0 Ev0 i) r.
+Proof. exact sccs_col_corot. Qed.
+
+(* (D): reversing axes (e_i = +-1) multiplies the 21 components by signs, and the six norms frame_parts computes
+   (distance to the hexagonal projection and the five class parts) do not change *)
+Theorem C12_parts_invariant_under_axis_reversal :
+  forall (e : nat -> R) (x x0 : arr NumR) (K G : R), pm3 e -> veq x (flip21 e x0) ->
+  cand x (@iso_vector NumR K G) = cand x0 (@iso_vector NumR K G).
+Proof. exact cand_flip. Qed.
+
+Example C12_general_nonvacuous :
+  let M0 := M_ortho_example2 in
+  let vm0 := k_upper_tri_to_symmetric_6 M0 in
+  let I3 := @eye3 NumR in
+  exists mud muv out0,
+    sym6 vm0 /\ orth (mat3 I3) /\
+    eq4b (t4 (k_voigt_to_elastic_tensor vm0)) (rot4 (t4 (k_voigt_to_elastic_tensor vm0)) (mat3 I3)) /\
+    distinct3 mud /\ distinct3 muv /\
+    eigcols (mat3 (fst (k_voigt_decompose vm0))) (mat3 I3) mud /\
+    eigcols (mat3 (snd (k_voigt_decompose vm0))) (mat3 I3) muv /\
+    @elasticity_components1 NumR M0 I3 I3 = Ok out0.
+Proof. exact general_nonvacuous_proof. Qed.
+
+(* ---------------------------------------------------------------------- *)
 (* The public function takes a SERIES of matrices.  Model_decomp_series is  *)
 (* the loop as written (table of rows allocated up front, iteration m       *)
 (* writes row m, an exception aborts the call); the statements below hold   *)
@@ -380,3 +443,161 @@ Example C12_series_nonvacuous :
   exists out, elasticity_components_series [x; x] = Ok [Some out; Some out] /\
               raises1 x = None.
 Proof. exact series_nonvacuous_proof. Qed.
+
+(* ---------------------------------------------------------------------- *)
+(* Tie T: the statements below are about coq/gen/Gen_decomp.v, which the    *)
+(* translator regenerates from pydrex.diagnostics.elasticity_components and *)
+(* smallest_angle on every run (translator/specs_decomp.py).  LAPACK's eigh *)
+(* is a FUNCTION PARAMETER `eigh : arr -> arr * arr` of the generated       *)
+(* definitions: which matrix it is applied to, and which part of its result *)
+(* is used, is part of the generated term and therefore of these theorems.  *)
+(* ---------------------------------------------------------------------- *)
+
+(* the numba kernel smallest_angle, every path (ZeroDivisionError for a zero vector, clip, degrees, fold at 90) *)
+Theorem C12_generated_smallest_angle_is_model : forall v a : arr NumR,
+  @k_ec_smallest_angle NumR v a
+  = if @angle_raises1 NumR v a then Err DivZero else Ok (@smallest_angle NumR v a).
+Proof. exact smallest_angle_inst. Qed.
+
+(* the three iterations of the eigenvector-pairing loop, 64 control paths each (`angle < bound` in degrees with
+   initial bound 10, `dot != 0`, np.sign, the signed index, column int(abs(index)), averaging, normalisation) *)
+Theorem C12_generated_pairing_is_model : forall Ed Ev : arr NumR,
+  @k_ec_sccs_col_0 NumR Ed Ev = (if @sccs_raises NumR Ed Ev 0 then Err DivZero else Ok (@sccs_col NumR Ed Ev 0)) /\
+  @k_ec_sccs_col_1 NumR Ed Ev = (if @sccs_raises NumR Ed Ev 1 then Err DivZero else Ok (@sccs_col NumR Ed Ev 1)) /\
+  @k_ec_sccs_col_2 NumR Ed Ev = (if @sccs_raises NumR Ed Ev 2 then Err DivZero else Ok (@sccs_col NumR Ed Ev 2)).
+Proof. exact pairing_inst. Qed.
+
+(* one pass of the loop over the series, for EVERY matrix and EVERY oracle (no hypothesis): the generated row is
+   the hand-written single-matrix model applied to the eigenvector matrices eigh returns for the dilatational and
+   the deviatoric contraction of upper_tri_to_symmetric(M) -- flag 1 and the eleven numbers, or flag 0 and zeros
+   when no candidate frame beats the initial distance (row left as np.empty allocated it), or the exception *)
+Theorem C12_generated_row_is_model : forall (eigh : arr NumR -> arr NumR * arr NumR) (M : arr NumR),
+  @k_ec_row NumR eigh M
+  = let '(d, v) := @k_voigt_decompose NumR (@k_upper_tri_to_symmetric_6 NumR M) in
+    match @elasticity_components1_chk NumR M (snd (eigh d)) (snd (eigh v)) with
+    | Ok l => Ok (mk_arr 0 [1], mk_arr 0 l)
+    | Err NonFinite => Ok (mk_arr 0 [0], mk_arr 0 [0; 0; 0; 0; 0; 0; 0; 0; 0; 0; 0])
+    | Err e => Err e
+    end.
+Proof. exact ec_row_inst_explicit. Qed.
+
+(* the public function on a series of one and of two matrices IS the series model (hence the map of the
+   single-matrix model, C12_series_is_map_of_single) on the entries (M, eigh(d)[1], eigh(v)[1]) *)
+Theorem C12_generated_series_is_model :
+  forall (eigh : arr NumR -> arr NumR * arr NumR) (M0 M1 : arr NumR),
+  entry_ok (entry_of eigh M0) ->
+  @k_elasticity_components_n1 NumR eigh M0 = enc_series (@elasticity_components_series NumR [entry_of eigh M0]) /\
+  (entry_ok (entry_of eigh M1) ->
+   @k_elasticity_components_n2 NumR eigh M0 M1
+   = enc_series (@elasticity_components_series NumR [entry_of eigh M0; entry_of eigh M1])).
+Proof. exact ec_series_inst. Qed.
+
+(* unconditionally: a batch of two is the two rows side by side, an exception for either matrix aborts the call *)
+Theorem C12_generated_batch_is_rows : forall (eigh : arr NumR -> arr NumR * arr NumR) (M0 M1 : arr NumR),
+  @k_elasticity_components_n2 NumR eigh M0 M1 =
+  match @k_ec_row NumR eigh M0 with
+  | Err e => Err e
+  | Ok (f0, r0) =>
+      match @k_ec_row NumR eigh M1 with
+      | Err e => Err e
+      | Ok (f1, r1) => Ok (mk_arr 0 [f0 0%nat; f1 0%nat], mk_arr 0 (map r0 (seq 0 11) ++ map r1 (seq 0 11)))
+      end
+  end.
+Proof. exact gen_batch_is_rows_proof. Qed.
+
+(* the frame clauses of C12 on the GENERATED row: the same tensor presented in its own (orthorhombic) frame, M0,
+   and in the frame Rq, M; the oracle is only assumed to return orthonormal eigenvector columns for the four
+   matrices the generated code hands to it; both rows initialised (flag 1) *)
+Theorem C12_generated_outputs_frame_invariant :
+  forall (eigh : arr NumR -> arr NumR * arr NumR) (M0 M Rq : arr NumR) (mud0 muv0 mud muv : nat -> R)
+         (f0 r0 f r : arr NumR),
+  let vm0 := @k_upper_tri_to_symmetric_6 NumR M0 in
+  let vm := @k_upper_tri_to_symmetric_6 NumR M in
+  let T0 := t4 (@k_voigt_to_elastic_tensor NumR vm0) in
+  let Ed0 := snd (eigh (fst (@k_voigt_decompose NumR vm0))) in
+  let Ev0 := snd (eigh (snd (@k_voigt_decompose NumR vm0))) in
+  let Ed := snd (eigh (fst (@k_voigt_decompose NumR vm))) in
+  let Ev := snd (eigh (snd (@k_voigt_decompose NumR vm))) in
+  sym6 vm0 -> ortho4 T0 ->
+  distinct3 (fun k => dil4 T0 k k) -> distinct3 (fun k => dev4 T0 k k) ->
+  orth (mat3 Ed0) -> eigcols (mat3 (fst (@k_voigt_decompose NumR vm0))) (mat3 Ed0) mud0 ->
+  orth (mat3 Ev0) -> eigcols (mat3 (snd (@k_voigt_decompose NumR vm0))) (mat3 Ev0) muv0 ->
+  @k_ec_row NumR eigh M0 = Ok (f0, r0) -> f0 0%nat = 1 ->
+  sym6 vm -> orth (mat3 Rq) -> eq4b (t4 (@k_voigt_to_elastic_tensor NumR vm)) (rot4 T0 (mat3 Rq)) ->
+  orth (mat3 Ed) -> eigcols (mat3 (fst (@k_voigt_decompose NumR vm))) (mat3 Ed) mud ->
+  orth (mat3 Ev) -> eigcols (mat3 (snd (@k_voigt_decompose NumR vm))) (mat3 Ev) muv ->
+  @k_ec_row NumR eigh M = Ok (f, r) -> f 0%nat = 1 ->
+  (exists kst, strict_min3 (hex_dist T0) kst) ->
+  forall n, (n < 8)%nat -> r n = r0 n.
+Proof. exact gen_outputs_frame_invariant_proof. Qed.
+
+Theorem C12_generated_hex_axis_corotates :
+  forall (eigh : arr NumR -> arr NumR * arr NumR) (M0 M Rq : arr NumR) (mud0 muv0 mud muv : nat -> R)
+         (f0 r0 f r : arr NumR),
+  let vm0 := @k_upper_tri_to_symmetric_6 NumR M0 in
+  let vm := @k_upper_tri_to_symmetric_6 NumR M in
+  let T0 := t4 (@k_voigt_to_elastic_tensor NumR vm0) in
+  let Ed0 := snd (eigh (fst (@k_voigt_decompose NumR vm0))) in
+  let Ev0 := snd (eigh (snd (@k_voigt_decompose NumR vm0))) in
+  let Ed := snd (eigh (fst (@k_voigt_decompose NumR vm))) in
+  let Ev := snd (eigh (snd (@k_voigt_decompose NumR vm))) in
+  sym6 vm0 -> ortho4 T0 ->
+  distinct3 (fun k => dil4 T0 k k) -> distinct3 (fun k => dev4 T0 k k) ->
+  orth (mat3 Ed0) -> eigcols (mat3 (fst (@k_voigt_decompose NumR vm0))) (mat3 Ed0) mud0 ->
+  orth (mat3 Ev0) -> eigcols (mat3 (snd (@k_voigt_decompose NumR vm0))) (mat3 Ev0) muv0 ->
+  @k_ec_row NumR eigh M0 = Ok (f0, r0) -> f0 0%nat = 1 ->
+  sym6 vm -> orth (mat3 Rq) -> eq4b (t4 (@k_voigt_to_elastic_tensor NumR vm)) (rot4 T0 (mat3 Rq)) ->
+  orth (mat3 Ed) -> eigcols (mat3 (fst (@k_voigt_decompose NumR vm))) (mat3 Ed) mud ->
+  orth (mat3 Ev) -> eigcols (mat3 (snd (@k_voigt_decompose NumR vm))) (mat3 Ev) muv ->
+  @k_ec_row NumR eigh M = Ok (f, r) -> f 0%nat = 1 ->
+  (exists kst, strict_min3 (hex_dist T0) kst) ->
+  exists sgn, pm1 sgn /\
+    forall a, (a < 3)%nat -> r (8 + a)%nat = sgn * sum3 (fun b => mat3 Rq a b * r0 (8 + b)%nat).
+Proof. exact gen_hex_axis_corotates_proof. Qed.
+
+Theorem C12_generated_ortho_sum_rule :
+  forall (eigh : arr NumR -> arr NumR * arr NumR) (M Rq : arr NumR) (T0 : T4) (mud muv : nat -> R) (f r : arr NumR),
+  let vm := @k_upper_tri_to_symmetric_6 NumR M in
+  let Ed := snd (eigh (fst (@k_voigt_decompose NumR vm))) in
+  let Ev := snd (eigh (snd (@k_voigt_decompose NumR vm))) in
+  sym6 vm -> ortho4 T0 -> orth (mat3 Rq) ->
+  eq4b (t4 (@k_voigt_to_elastic_tensor NumR vm)) (rot4 T0 (mat3 Rq)) ->
+  distinct3 (fun k => dil4 T0 k k) -> distinct3 (fun k => dev4 T0 k k) ->
+  orth (mat3 Ed) -> eigcols (mat3 (fst (@k_voigt_decompose NumR vm))) (mat3 Ed) mud ->
+  orth (mat3 Ev) -> eigcols (mat3 (snd (@k_voigt_decompose NumR vm))) (mat3 Ev) muv ->
+  @k_ec_row NumR eigh M = Ok (f, r) -> f 0%nat = 1 ->
+  r 3%nat * r 3%nat + r 4%nat * r 4%nat + r 5%nat * r 5%nat + r 6%nat * r 6%nat + r 7%nat * r 7%nat
+  = r 2%nat * r 2%nat.
+Proof. exact gen_ortho_sum_rule_proof. Qed.
+
+(* C12 for GENERAL tensors on the generated row (see C12_general_outputs_frame_independent): simple spectra, the
+   oracle lists the eigenvectors in the same order in both frames; if the row of the tensor in its original frame is
+   initialised then so is the row in the new frame, with the same eight numbers and the co-rotated axis *)
+Theorem C12_generated_general_frame_independent :
+  forall (eigh : arr NumR -> arr NumR * arr NumR) (M0 M Rq : arr NumR) (mud muv : nat -> R) (f0 r0 : arr NumR),
+  let vm0 := @k_upper_tri_to_symmetric_6 NumR M0 in
+  let vm := @k_upper_tri_to_symmetric_6 NumR M in
+  let Ed0 := snd (eigh (fst (@k_voigt_decompose NumR vm0))) in
+  let Ev0 := snd (eigh (snd (@k_voigt_decompose NumR vm0))) in
+  let Ed := snd (eigh (fst (@k_voigt_decompose NumR vm))) in
+  let Ev := snd (eigh (snd (@k_voigt_decompose NumR vm))) in
+  sym6 vm0 -> sym6 vm -> orth (mat3 Rq) ->
+  eq4b (t4 (@k_voigt_to_elastic_tensor NumR vm)) (rot4 (t4 (@k_voigt_to_elastic_tensor NumR vm0)) (mat3 Rq)) ->
+  distinct3 mud -> distinct3 muv ->
+  orth (mat3 Ed0) -> eigcols (mat3 (fst (@k_voigt_decompose NumR vm0))) (mat3 Ed0) mud ->
+  orth (mat3 Ev0) -> eigcols (mat3 (snd (@k_voigt_decompose NumR vm0))) (mat3 Ev0) muv ->
+  orth (mat3 Ed) -> eigcols (mat3 (fst (@k_voigt_decompose NumR vm))) (mat3 Ed) mud ->
+  orth (mat3 Ev) -> eigcols (mat3 (snd (@k_voigt_decompose NumR vm))) (mat3 Ev) muv ->
+  @k_ec_row NumR eigh M0 = Ok (f0, r0) -> f0 0%nat = 1 ->
+  exists f r, @k_ec_row NumR eigh M = Ok (f, r) /\ f 0%nat = 1 /\
+    (forall n, (n < 8)%nat -> r n = r0 n) /\
+    exists sgn, pm1 sgn /\
+      forall a, (a < 3)%nat -> r (8 + a)%nat = sgn * sum3 (fun b => mat3 Rq a b * r0 (8 + b)%nat).
+Proof. exact gen_general_frame_independent_proof. Qed.
+
+(* non-vacuity: with the oracle that answers the identity matrix, the generated row of diag(1,2,4,1,1,1) is
+   initialised and the orthonormality hypotheses hold (the tensor-side hypotheses: C12_corotation_nonvacuous) *)
+Example C12_generated_nonvacuous :
+  exists f r, @k_ec_row NumR eigh_id M_ortho_example2 = Ok (f, r) /\ f 0%nat = 1 /\
+              orth (mat3 (gen_Ed eigh_id M_ortho_example2)) /\ orth (mat3 (gen_Ev eigh_id M_ortho_example2)).
+Proof. exact gen_nonvacuous_proof. Qed.
